@@ -43,6 +43,7 @@ type FuncSpec struct {
 	Ctx        *FileCtx
 	Line       int
 	Requires   []*Clause
+	Captured   []*Clause // subset of Requires: proved at the closure's creation sites
 	Ensures    []*Clause
 	Relational []*Clause
 	Modifies   []*CExpr
@@ -120,6 +121,7 @@ type Contracts struct {
 	PtrIfaces map[string]bool // interfaces whose dynamic values are always pointers
 	NonNilIfaces map[string]bool // interfaces whose values found in memory are assumed non-nil (ledger: nonnil-stored)
 	Assumed  []string    // assumptions declared in contract files (assumed-stable, ...)
+	Alias    map[string]string // stable closure names -> positional keys (alias.go)
 	NonNil   []string    // package-level variables assumed non-nil (ledger)
 	ChanMsgs []*ChanSpec // package-level message invariants: chanmsg T (v): P
 	Files    []string
@@ -132,7 +134,7 @@ func NewContracts() *Contracts {
 
 var headWords = map[string]bool{
 	"import": true, "spec": true, "axiom": true, "lemma": true, "abstract": true, "type": true,
-	"interface": true, "func": true, "requires": true, "ensures": true, "relational": true,
+	"interface": true, "func": true, "requires": true, "captured": true, "ensures": true, "relational": true,
 	"modifies": true, "panics": true, "decreases": true, "pure": true, "log": true, "logs": true, "loop": true,
 	"invariant": true, "trusted": true, "source": true, "nobody": true, "lock": true, "shared": true,
 	"ghost": true, "chan": true, "chanmsg": true, "params": true, "creates": true, "consumes": true, "havoc": true, "assert": true,
@@ -394,7 +396,7 @@ func (cs *Contracts) LoadContractFile(path, pkgPath string, pkgImports map[strin
 			curF = &FuncSpec{Key: key, Display: disp, Tags: tags, Ctx: ctx, Line: c.line, Loops: map[string]*LoopSpec{}, IsIface: w == "interface", Trusted: trusted}
 			cs.Funcs[key] = curF
 			curL, curT = nil, nil
-		case "requires", "ensures", "assert":
+		case "requires", "ensures", "assert", "captured":
 			if curF == nil {
 				cs.errf(ctx, c.line, "%s outside func", w)
 				continue
@@ -407,6 +409,11 @@ func (cs *Contracts) LoadContractFile(path, pkgPath string, pkgImports map[strin
 			switch w {
 			case "requires":
 				curF.Requires = append(curF.Requires, cl)
+			case "captured":
+				// a precondition of a closure over its captured variables: assumed at the closure's
+				// entry, proved where the closure is created (fragment.go)
+				curF.Requires = append(curF.Requires, cl)
+				curF.Captured = append(curF.Captured, cl)
 			case "ensures":
 				curF.Ensures = append(curF.Ensures, cl)
 			case "assert":
@@ -731,15 +738,33 @@ func (cs *Contracts) funcKey(ctx *FileCtx, hdr string, iface bool) (string, stri
 		}
 		q := cs.qualify(ctx, tn)
 		if star == "*" {
-			return "(*" + q + ")." + name, hdr, nil
+			return cs.unalias("(*" + q + ")." + name), hdr, nil
 		}
-		return "(" + q + ")." + name, hdr, nil
+		return cs.unalias("(" + q + ")." + name), hdr, nil
 	}
 	name := hdr
 	if i := strings.IndexAny(name, " ("); i > 0 {
 		name = name[:i]
 	}
-	return cs.qualify(ctx, name), hdr, nil
+	if strings.HasPrefix(name, "paramfn:") {
+		// paramfn:<closure or function>.<parameter>
+		if j := strings.LastIndex(name, "."); j > 0 {
+			fn := name[len("paramfn:"):j]
+			if a, ok := cs.Alias[fn]; ok {
+				name = "paramfn:" + a + name[j:]
+			}
+		}
+		return cs.qualify(ctx, name), hdr, nil
+	}
+	return cs.unalias(cs.qualify(ctx, name)), hdr, nil
+}
+
+// unalias resolves a stable closure name (alias.go) to the positional key go/ssa uses.
+func (cs *Contracts) unalias(key string) string {
+	if a, ok := cs.Alias[key]; ok {
+		return a
+	}
+	return key
 }
 
 func (cs *Contracts) parseSpecFunc(ctx *FileCtx, line int, rest string) {
